@@ -68,7 +68,12 @@ def handleC10 (inp obs : List String) : Verdict :=
     let nonEmpty := chunks.filter (fun c => !c.isEmpty)
     let nontrivial := nonEmpty.length ≥ 2
     let primingErr := chunks.any (fun c => match c with | .err _ :: _ => true | _ => false)
-    let classes :=
+    -- thousands of chunk streams (an index type narrower than usize wraps there): the quadratic class
+    -- predicates and the list-based model are skipped, the specification is evaluated as always
+    let big := chunks.length > 1000
+    let classes := if big then
+      (if chunks.length > 65536 then ["more-than-65536-chunks"] else ["more-than-1000-chunks"]) ++ (if anyErr then [] else ["no-error"]) else
+      (if chunks.length > 256 then ["more-than-256-chunks"] else []) ++
       (if chunks.isEmpty then ["zero-chunks"] else []) ++
       (if !chunks.isEmpty && nonEmpty.isEmpty then ["all-empty"] else []) ++
       (if chunks.length == 1 then ["one-chunk"] else []) ++
@@ -98,6 +103,7 @@ def handleC10 (inp obs : List String) : Verdict :=
       match specFail with
       | some d => { kind := "specfail", nontrivial, classes, detail := d }
       | none =>
+        if big then { kind := "ok", nontrivial, classes } else
         let m := drain cmp chunks
         let mpre := beforeFirstErr m.1
         let mExtra1 := m.2.next cmp
@@ -131,7 +137,7 @@ def handleC01 (inp obs : List String) : Verdict :=
   | some ((rev, c, threads, comp, tmp, ty, xs, builderOrder), _), some ((o, why), _) =>
     let cmp := cmpItem rev
     -- (builderOrder / 24) % 3: 0 one sort per sorter; 1 / 2: the observed sort is the first / second of two on one sorter
-    let reuse := (builderOrder / 24) % 3
+    let reuse := (builderOrder / 24) % 4
     let n := xs.length
     let rs := runs c xs
     let hasTie := (canonMulti xs).zip ((canonMulti xs).drop 1) |>.any (fun ab => cmpKey ab.1.1 ab.2.1 == .eq)
@@ -150,7 +156,7 @@ def handleC01 (inp obs : List String) : Verdict :=
       (if xs.any (fun x => x.2.length > 8192) then ["record-larger-than-8KiB"] else []) ++
       (if xs.any (fun x => x.2.length > 65536) then ["record-larger-than-64KiB"] else []) ++
       (if rev then ["reversed-comparator"] else []) ++
-      (if reuse == 1 then ["sorter-reused-observed-first"] else if reuse == 2 then ["sorter-reused-observed-second"] else [])
+      (if reuse == 1 then ["sorter-reused-observed-first"] else if reuse == 2 then ["sorter-reused-observed-second"] else if reuse == 3 then ["sorter-dropped-before-first-read"] else [])
     match o with
     | none => { kind := "specfail", nontrivial, classes, detail := why }
     | some (len, outs) =>
